@@ -13,7 +13,7 @@
     is persisted before its first number is handed out (DESIGN.md section 2). *)
 From Coq Require Import List ZArith NArith Bool Lia.
 From DH Require Import Lib.CheckLib Model.Store Model.FeedSpec Model.Crash Proofs.StoreProofs Proofs.CrashStore
-     Proofs.CrashProofs Check.StoreCheck Check.C04Check Proofs.C04CheckProofs.
+     Proofs.CrashProofs Proofs.CrashCounter Proofs.CrashCount Check.StoreCheck Check.C04Check Proofs.C04CheckProofs Proofs.C04Link.
 Import ListNotations.
 Open Scope Z_scope.
 
@@ -145,14 +145,74 @@ Theorem C04_counter_fixed : forall fl dm c o k, wf_wop o -> cinv c ->
 Proof. exact counter_in_data_atomic. Qed.
 Print Assumptions C04_counter_fixed.
 
-(** Link to the correspondence run: if the implementation's observations agree with the model (any variant),
-    the recovered data it showed is that of one of its own crash-free reference runs (all datasets alike). *)
+(** EXACT characterisation of the counter at every crash position, pinned tree: the value before the write plus
+    the new items of exactly those counter commits that lie within the first k durable steps
+    ([cnt_of c o] = the write's counter commits in step order, one per dataset with new entities) ... *)
+Theorem C04_counter_exact : forall fl dm c o k ds, wf_wop o -> cinv c ->
+  let ci := commit_index CounterSeparate fl dm c o in
+  items_of (crash_at CounterSeparate fl dm k c o) ds = items_of c ds + cval (firstn (k - S ci) (cnt_of c o)) ds.
+Proof. exact counter_separate_exact. Qed.
+Print Assumptions C04_counter_exact.
+
+(** ... hence the exact set of crash points at which the counter of [ds] LAGS (data of the write in, counter not
+    what the acknowledged write leaves): k is beyond the data commit, the write adds entities to [ds], and the
+    counter commit of [ds] is not among the first k steps - and at no other crash point. *)
+Theorem C04_counter_lag_iff : forall fl dm c o k ds, wf_wop o -> cinv c ->
+  let ci := commit_index CounterSeparate fl dm c o in
+  (k > ci)%nat ->
+  (items_of (crash_at CounterSeparate fl dm k c o) ds <> items_of (exec_op CounterSeparate fl dm c o) ds
+   <-> assoc ds (cnt_of c o) <> None /\ assoc ds (firstn (k - S ci) (cnt_of c o)) = None).
+Proof. exact counter_lag_iff. Qed.
+Print Assumptions C04_counter_lag_iff.
+
+(** Repaired counter mode, ALL histories (writes, crashes at any position, restarts), every store variant:
+    the counter of every dataset is its number of entities (= length of the latest view of its feed). *)
+Theorem C04_counter_fixed_all_histories : forall fl dm es next idp ds,
+  0 <= next <= idp -> Forall wf_event es ->
+  let c := run_events CounterInData fl dm es (cstate0 next idp) in
+  items_of c ds = Z.of_nat (length (view_of (feed_of (get_ds (cs_store c) ds)))).
+Proof.
+  intros fl dm es next idp ds Hn Hes. cbv zeta.
+  exact (run_events_cnt_ok fl dm es (cstate0 next idp) Hes (cinv0 next idp Hn) (cnt_ok0 next idp) ds).
+Qed.
+Print Assumptions C04_counter_fixed_all_histories.
+
+(** one dataset's share of a write adds exactly [new_items] entities, for every variant *)
+Theorem C04_new_items : forall fl dm clk t ents d, dinvg clk d ->
+  nents (store_batch_ds fl dm t ents d) = nents d + new_items d ents.
+Proof. exact store_batch_nents. Qed.
+Print Assumptions C04_new_items.
+
+(** Link to the correspondence run.  (1) Atomicity clause alone, any variant (kept from the first round). *)
 Theorem C04_agree_implies_spec_partial : forall v t, wf_tcase t -> agree v t = true -> atomic_ok t = true.
 Proof. exact agree_implies_atomic. Qed.
 Print Assumptions C04_agree_implies_spec_partial.
-(* Full statement not proved: [agree v_fixed t = true -> spec_ok t = true]; gap: the remaining clauses of [spec_ok]
-   (dsd_consistent / ids_consistent / grows / counter_ok evaluated on the observed dumps) follow from [cinv] of the
-   matching model state (C04_monotone_inv, C04_monotone_step) but their boolean reflection on dumps is not written. *)
+
+(** (2) The whole core spec, ANY variant: atomicity; in the recovered AND in the final store of every dataset
+    the change positions are strictly increasing and below the sequence key, the latest-only feed is the latest
+    view of the log and the listing its id-sorted form; the id table is one-to-one, every id within
+    [first next id, next id), next id within the persisted lease; the final logs extend the recovered ones with
+    positions at or beyond the recovered sequence keys; every URI and id value of the recovered table is kept and
+    new id values lie at or beyond the recovered next id.  The one hypothesis besides well-formedness is the
+    clause [ids_stable], which compares the two OBSERVED id tables with each other row by row: the model holds the
+    id table only up to the assignment order inside one write (Go map iteration), so the pairing of URIs with ids
+    is an observed oracle (DESIGN.md 1.5); its model-side counterpart is C04_id_stable. *)
+Theorem C04_agree_implies_spec_core : forall v t, wf_tcase_full t -> agree v t = true ->
+  ids_stable (t_after t) (t_final t) = true -> spec_core t = true.
+Proof. exact agree_implies_spec_core. Qed.
+Print Assumptions C04_agree_implies_spec_core.
+
+(** (3) The WHOLE executable spec [spec_ok] (core + counter = number of entities, recovered and final), for every
+    variant whose counter is written by the data transaction - in particular the fully repaired [v_fixed]. *)
+Theorem C04_agree_implies_spec : forall v t, v_cm v = CounterInData -> wf_tcase_full t -> agree v t = true ->
+  ids_stable (t_after t) (t_final t) = true -> spec_ok t = true.
+Proof. exact agree_implies_spec_ok. Qed.
+Print Assumptions C04_agree_implies_spec.
+
+Theorem C04_agree_fixed_implies_spec : forall t, wf_tcase_full t -> agree v_fixed t = true ->
+  ids_stable (t_after t) (t_final t) = true -> spec_ok t = true.
+Proof. exact agree_fixed_implies_spec_ok. Qed.
+Print Assumptions C04_agree_fixed_implies_spec.
 
 (** ** Non-vacuity *)
 (* the step list of a two-dataset transaction, pinned variant: leases and releases, id commit, data commit, two counter commits *)
@@ -178,3 +238,44 @@ Proof. vm_compute. repeat split. Qed.
 (* hypotheses of the theorems are satisfiable by non-trivial data: a history with a crash and a restart *)
 Example C04_history_wf : Forall wf_event [EOp w_op; ECrash x_txn 3; ERestart; EOp x_txn] /\ 0 <= 5 <= 1000.
 Proof. split; [repeat constructor; cbn; repeat constructor; cbn; intuition lia | lia]. Qed.
+
+(* the hypotheses of the link theorems are met by a non-trivial case: the repaired model's own dumps of a history whose
+   two-dataset transaction dies between the id commit and the data commit and is then retried *)
+Definition x_dump (c : cstate) : odump :=
+  {| o_idp := cs_idp c; o_next := cs_next c; o_ids := cs_ids c; o_ds := [model_dsd c 1; model_dsd c 2] |}.
+Definition x_c1 : cstate := exec_op (v_cm v_fixed) (v_fl v_fixed) (v_dm v_fixed) w_c0 w_op.
+Definition x_c2 : cstate :=
+  crash_at (v_cm v_fixed) (v_fl v_fixed) (v_dm v_fixed) (commit_index (v_cm v_fixed) (v_fl v_fixed) (v_dm v_fixed) x_c1 x_txn) x_c1 x_txn.
+Definition x_c3 : cstate := exec_op (v_cm v_fixed) (v_fl v_fixed) (v_dm v_fixed) x_c2 x_txn.
+Definition x_case : tcase :=
+  {| t_next0 := 5; t_idp0 := 1000; t_prefix := [EOp w_op]; t_crash := CHook x_txn 1 [];
+     t_after := x_dump x_c2; t_tail := [x_txn]; t_final := x_dump x_c3;
+     t_refA := o_ds (x_dump x_c1);
+     t_refB := Some (o_ds (x_dump (exec_op (v_cm v_fixed) (v_fl v_fixed) (v_dm v_fixed) x_c1 x_txn))) |}.
+Example C04_link_nonvacuous :
+  wf_tcase_full x_case /\ agree v_fixed x_case = true /\ ids_stable (t_after x_case) (t_final x_case) = true
+  /\ spec_ok x_case = true /\ map fst (o_ids (t_after x_case)) = [2; 1] /\ od_log (model_dsd x_c2 2) = []
+  /\ length (od_log (model_dsd x_c3 2)) = 2%nat.
+Proof.
+  split; [|vm_compute; repeat split].
+  split; [constructor|split].
+  - cbn; lia.
+  - repeat constructor.
+  - repeat constructor; cbn; intuition lia.
+  - reflexivity.
+  - intros rb [= <-]. reflexivity.
+  - repeat constructor; cbn; intuition lia.
+  - reflexivity.
+Qed.
+
+(* the lag characterisation is not vacuous: in the two-dataset transaction (pinned variant) the crash position right after
+   the FIRST counter commit lags for dataset 2 and not for dataset 1 *)
+Example C04_lag_nonvacuous :
+  let fl := v_fl w_current in let dm := v_dm w_current in
+  let ci := commit_index CounterSeparate fl dm w_c0 x_txn in
+  cnt_of w_c0 x_txn = [(1, 1); (2, 2)]
+  /\ assoc 2 (firstn (S (S ci) - S ci) (cnt_of w_c0 x_txn)) = None
+  /\ assoc 1 (firstn (S (S ci) - S ci) (cnt_of w_c0 x_txn)) = Some 1
+  /\ items_of (crash_at CounterSeparate fl dm (S (S ci)) w_c0 x_txn) 2 = 0
+  /\ items_of (exec_op CounterSeparate fl dm w_c0 x_txn) 2 = 2.
+Proof. vm_compute. repeat split. Qed.
